@@ -29,7 +29,9 @@ func probeMain(args []string) {
 			}
 		}
 		ts.Reclaim()
-		_, perr := parser.ParseProgram(nil, []byte(in), parser.Config{})
+		exact := make([]byte, len(in))
+		copy(exact, in)
+		_, perr := parser.ParseProgram(nil, exact, parser.Config{})
 		if perr != nil {
 			if pe, ok := perr.(parser.Error); ok {
 				for _, e := range pe.Errors {
